@@ -108,15 +108,21 @@ def run_lattice(spec):
     min_excess = math.inf
     classes = {-1: 0, 0: 0, 1: 0}
     sample = None
+    forms_seen = {}
     for nv in nv_list:
         for poly in lattice_polygons(nv, shard, nshards):
             npoly += 1
             if sample is None:
                 sample = {"polygon": poly, "n_points": len(pts)}
             ys = {v[1] for v in poly}
+            # the polygon, not its container, is what the classification is about: lists of tuples, lists of lists and numpy arrays
+            # (integer and float) are all forms in which the repository itself holds outlines
+            form = npoly % 4
+            forms_seen[form] = forms_seen.get(form, 0) + 1
+            poly_arg = [poly, np.asarray(poly, dtype=np.int64), np.asarray(poly, dtype=float), [list(v) for v in poly]][form]
             for p in pts:
                 for tol in TOLS if npoly % 7 == 0 else TOLS[:1]:
-                    r = f(poly, p, on_edge_tolerance=tol)
+                    r = f(poly_arg, p, on_edge_tolerance=tol)
                     classes[r] += 1
                 # non-trivial: level with a vertex or collinear with an edge (not on it)
                 if p[1] in ys:
@@ -131,6 +137,7 @@ def run_lattice(spec):
                             min_excess = min(min_excess, ex)
     return {
         "kind": "lattice",
+        "container_forms": {["list-of-tuples", "int-array", "float-array", "list-of-lists"][k]: v for k, v in forms_seen.items()},
         "polygons": npoly,
         "evals": log["evals"],
         "nbad": log["nbad"],
@@ -223,13 +230,14 @@ def test_points(g, poly, tol):
 
 def run_random(spec):
     g = rng(spec["seed"], PROP, spec["shard"])
-    log = {"evals": 0, "bad": [], "nbad": 0, "guard_skipped": 0, "oracle": lambda c, p, t: O.classify(c, p, t)}
+    log = {"evals": 0, "bad": [], "nbad": 0, "guard_skipped": 0, "oracle": lambda c, p, t: O.classify([tuple(map(float, v)) for v in c], p, t)}
     f = install_contract(log)
     npoly = 0
     nontrivial = 0
     classes = {-1: 0, 0: 0, 1: 0}
     sample = None
     kinds = 0
+    forms_seen = {}
     while npoly < spec["n"]:
         poly = random_polygon(g)
         if poly is None:
@@ -237,8 +245,11 @@ def run_random(spec):
         npoly += 1
         tol = float(g.choice(TOLS))
         ys = {v[1] for v in poly}
+        form = npoly % 4
+        forms_seen[form] = forms_seen.get(form, 0) + 1
+        poly_arg = [poly, np.asarray(poly, dtype=float), tuple(tuple(v) for v in poly), [list(v) for v in poly]][form]
         for p in test_points(g, poly, tol):
-            r = f(poly, p, on_edge_tolerance=tol)
+            r = f(poly_arg, p, on_edge_tolerance=tol)
             classes[r] += 1
             if p[1] in ys or abs(float(O.min_edge_excess(poly, p))) < 50 * tol:
                 nontrivial += 1
@@ -246,6 +257,7 @@ def run_random(spec):
             sample = {"polygon": poly, "tol": tol}
     return {
         "kind": "random",
+        "container_forms": {["as-generated", "float-array", "tuple-of-tuples", "list-of-lists"][k]: v for k, v in forms_seen.items()},
         "polygons": npoly,
         "evals": log["evals"],
         "nbad": log["nbad"],
@@ -277,7 +289,8 @@ def judge(results, nv, tier="quick", seed=0):
         "lattice: every simple polygon (non-zero area, no touching edges, collinear vertices allowed) with "
         f"{nv} vertices on the 4x4 integer lattice, one per rotation class, both orientations, x 81 half-integer "
         "points, tolerance 0.001 (and 0.01 for every 7th polygon); random: convex/star/orthogonal/integer-star "
-        "polygons with points level with vertices, collinear with edges, on edges and at controlled distances. "
+        "polygons with points level with vertices, collinear with edges, on edges and at controlled distances; polygons handed over as lists of "
+        "tuples, lists of lists, tuples of tuples, integer and float numpy arrays in rotation. "
         "non-trivial = (polygon, point) pair whose point is level with a vertex (same y) or within 50 tolerances "
         "of an edge; distinct by construction (distinct polygons or distinct points)."
     )
@@ -301,6 +314,8 @@ def judge(results, nv, tier="quick", seed=0):
         else:
             rep.count("random_polygons", r["polygons"])
             rep.count("guard_band_skipped", r["guard_skipped"])
+        for fk, fv in r.get("container_forms", {}).items():
+            rep.count("polygons_passed_as_" + fk, fv)
         if r.get("sample"):
             rep.sample({"kind": r["kind"], **r["sample"]})
         for b in r["bad"]:
